@@ -42,19 +42,28 @@ class Context:
     def spanning(self, index: int) -> bool:
         return self.case["genes"][index][1] > self.length
 
-    def window(self, index: int, cutoff: int) -> Tuple[int, int]:
-        """ the search window of a rule around a gene on a ring as the code base documents it
-            (cutoff on both sides, capped so that it cannot lap itself): (start, size) """
+    def window(self, index: int, cutoff: int) -> Tuple[int, int, int]:
+        """ the search window of a rule around a gene on a ring as the code base builds it (cutoff on
+            both sides, capped so that it cannot lap itself): (start, size, parts); parts is 1 for a
+            window inside the record or one that became the whole record, 2 when it crosses the origin """
         start, end, _ = self.case["genes"][index]
         size = end - start
+        if end > self.length:
+            # an origin-spanning gene: the window always crosses the origin unless it is everything
+            reach = min(cutoff, (self.length - size) // 2 + 1)
+            if size + 2 * reach >= self.length:
+                return (0, self.length, 1)
+            return ((start - reach) % self.length, size + 2 * reach, 2)
         reach = min(cutoff, (self.length - size) // 2 + 1)
-        if size + 2 * reach >= self.length:
-            return (0, self.length)
-        return ((start - reach) % self.length, size + 2 * reach)
+        total = size + 2 * reach
+        if total > self.length or (total == self.length and start - reach < 0):
+            return (0, self.length, 1)
+        low = start - reach
+        crosses = low < 0 or end + reach > self.length
+        return (low % self.length, total, 2 if crosses else 1)
 
     def wraps(self, index: int, cutoff: int) -> bool:
-        start, size = self.window(index, cutoff)
-        return size < self.length and start + size > self.length
+        return self.window(index, cutoff)[2] == 2
 
     def hit_genes(self) -> List[int]:
         return [i for i, own in enumerate(self.case["hits"]) if own]
@@ -116,7 +125,7 @@ def whole_record_window(ctx: Context, where: Dict[str, Any]) -> bool:
     cutoff = rule["cut"]
     hit = ctx.hit_genes()
     for i in hit:
-        if ctx.window(i, cutoff)[1] != ctx.length:
+        if ctx.window(i, cutoff)[1] != ctx.length or ctx.wraps(i, cutoff):
             continue
         for j in hit:
             if j == i:
@@ -146,7 +155,7 @@ def window_edge(ctx: Context, where: Dict[str, Any]) -> bool:
     for i in hit:
         if not ctx.wraps(i, rule["cut"]):
             continue
-        inside = model.span_bases(ctx.window(i, rule["cut"]), ctx.length)
+        inside = model.span_bases(ctx.window(i, rule["cut"])[:2], ctx.length)
         for j in hit:
             if j != i and ctx.geo.bases[j] & inside and not ctx.geo.bases[j] <= inside:
                 return True
@@ -163,9 +172,9 @@ def ring_closes(ctx: Context, where: Dict[str, Any]) -> bool:
 
 
 def merged_ring_closes(ctx: Context, where: Dict[str, Any]) -> bool:
-    """ circular; some rule has a chain of several genes, one of them spanning the origin, whose span
-        with the neighbourhood reaches around the ring (two protoclusters get merged over the origin
-        and the merged neighbourhood laps itself) """
+    """ circular; some rule has a chain with two genes that both span the origin and whose span with the
+        neighbourhood reaches around the ring (their two protoclusters get merged over the origin and
+        the merged neighbourhood laps itself into three parts) """
     if not ctx.circular:
         return False
     for rule in ctx.case["rules"]:
@@ -173,7 +182,7 @@ def merged_ring_closes(ctx: Context, where: Dict[str, Any]) -> bool:
         extra = [i for i in ctx.hit_genes() if rule.get("ext") and model.extender_ok(rule["ext"], ctx.case["hits"][i])]
         for group in chk.chains(anchors, rule["cut"], ctx.geo):
             members = list(group) + [i for i in extra if i not in group]
-            if len(members) < 2 or not any(ctx.spanning(i) for i in members):
+            if sum(1 for i in members if ctx.spanning(i)) < 2:
                 continue
             for start, size in ctx.geo.spans(group):
                 if start + size > ctx.length and size + 2 * rule["nb"] >= ctx.length:
@@ -252,14 +261,13 @@ MECHANISMS: Dict[str, List[Mechanism]] = {
         ("gene-at-0-with-origin-spanning-gene", "C03-F8", zero_start_with_spanning_gene),
         ("merged-ring-closes", "C03-F5", merged_ring_closes),
     ],
-    "core-smallest-span": [("wrap-prone", "C03-F6", wrap_prone_own),
-                           ("origin-spanning-gene-in-chain", "C03-F9", spanning_member_own)],
+    "core-smallest-span": [("wrap-prone", "C03-F6", wrap_prone_own)],
     "extenders-core": [("origin-spanning-gene-in-chain", "C03-F3", spanning_member_own),
                        ("wrap-prone", "C03-F6", wrap_prone_own)],
     "chains-maximal": [WRAP_ANY, SPAN_ANY, SUP_OVER],
-    "one-protocluster-per-chain": [WRAP_ANY, SPAN_ANY, SUP_OVER],
+    "one-protocluster-per-chain": [WRAP_ANY, SPAN_ANY],
     "kept-unless-superior-covers": [WRAP_ANY, SPAN_ANY, SUP_OVER],
-    "dropped-when-superior-covers": [WRAP_ANY, SPAN_ANY],
+    "dropped-when-superior-covers": [WRAP_ANY],
 }
 
 
@@ -289,3 +297,70 @@ def classifier(finding: str) -> Callable[[str, Any], bool]:
 
 
 FINDING_IDS = sorted({owner for entries in MECHANISMS.values() for _, owner, _ in entries})
+
+
+# ---------------------------------------------------------------------------------------------
+#  whole-case view (used by C07, which compares complete runs): which known input classes does a
+#  case touch at all, decided from the input only (expected anchors and chains of the oracle)
+# ---------------------------------------------------------------------------------------------
+
+CASE_PRIORITY = (
+    "gene-at-0-with-origin-spanning-gene",
+    "stale-cutoff-cache",
+    "whole-record-window",
+    "origin-spanning-hit-gene",
+    "window-edge-over-origin",
+    "origin-spanning-gene-in-chain",
+    "wrap-prone",
+    "ring-closes",
+    "superior-overlaps-over-origin",
+)
+
+
+def case_mechanisms(case: Dict[str, Any]) -> List[str]:
+    """ the suffixes of CASE_PRIORITY that apply to some rule / chain of the case """
+    ctx = Context(case)
+    found = set()
+    if zero_start_with_spanning_gene(ctx, {}):
+        found.add("gene-at-0-with-origin-spanning-gene")
+    by_name = {r["n"]: r for r in case["rules"]}
+    chains_of: Dict[str, List[List[int]]] = {}
+    for rule in case["rules"]:
+        where = {"rule": rule["n"]}
+        if stale_cutoff_cache(ctx, where):
+            found.add("stale-cutoff-cache")
+        if whole_record_window(ctx, where):
+            found.add("whole-record-window")
+        if spanning_hit_gene(ctx, where):
+            found.add("origin-spanning-hit-gene")
+        if window_edge(ctx, where):
+            found.add("window-edge-over-origin")
+        anchors = chk.expected_anchors(case, rule, ctx.geo)
+        chains_of[rule["n"]] = chk.chains(anchors, rule["cut"], ctx.geo)
+        for group in chains_of[rule["n"]]:
+            members = list(group)
+            if rule.get("ext"):
+                _, may = chk.extender_closures(case, rule, group, ctx.geo)
+                members += sorted(may)
+                if ctx.circular and any(ctx.spanning(i) for i in ctx.hit_genes()
+                                        if model.extender_ok(rule["ext"], case["hits"][i]) or i in group):
+                    found.add("origin-spanning-hit-gene")
+            if ctx.spanning_member(members):
+                found.add("origin-spanning-gene-in-chain")
+            if ctx.wrap_prone(members):
+                found.add("wrap-prone")
+            for start, size in ctx.crossing_spans(members):
+                if size + 2 * rule["nb"] >= ctx.length:
+                    found.add("ring-closes")
+    if ctx.circular:
+        for rule in case["rules"]:
+            for sup in rule.get("sup") or []:
+                if sup not in by_name:
+                    continue
+                for group in chains_of[rule["n"]]:
+                    own = [model.span_bases(v, ctx.length) for v in ctx.crossing_spans(group)]
+                    for other in chains_of[sup]:
+                        theirs = [model.span_bases(v, ctx.length) for v in ctx.geo.spans(other)]
+                        if any(a & b and not a <= b for a in own for b in theirs):
+                            found.add("superior-overlaps-over-origin")
+    return [name for name in CASE_PRIORITY if name in found]
